@@ -83,6 +83,11 @@ func (g *gen) explicitID(v *wsView, above bool, nRaw int, slot *int) uint64 {
 			}
 			id = base + uint64(*slot)*uint64(nRaw+2)
 			*slot++
+			if g.r.Chance(1, 40) && !v.used[^uint64(0)] {
+				// the largest ID: UpdateOnSync must leave the generator alone (its successor does not fit)
+				v.used[^uint64(0)] = true
+				return ^uint64(0)
+			}
 			if id > v.maxID {
 				v.maxID = id // keeps later explicit IDs of this scenario apart
 			}
@@ -309,7 +314,9 @@ func (g *gen) genEvent(ws uint64, via string) (*eventSpec, []string) {
 				id := g.explicitID(v, above, len(argRaw)+len(cudRaw), &slot)
 				v.used[id] = true // reserved for this scenario even if the event is refused
 				replaceVal(ev, raw, id)
-				if above {
+				if id == ^uint64(0) {
+					tags = append(tags, "explicit-max-uint64")
+				} else if above {
 					tags = append(tags, "explicit-above-next")
 				} else {
 					tags = append(tags, "explicit-below-next")
@@ -405,6 +412,9 @@ func observe(v *wsView, ev *eventSpec) []string {
 	var tags []string
 	o := ev.Obs
 	if !o.Accepted {
+		if o.Logged {
+			return []string{"refused-after-logging"}
+		}
 		return []string{"rejected"}
 	}
 	tags = append(tags, "accepted")
@@ -465,7 +475,7 @@ func observe(v *wsView, ev *eventSpec) []string {
 		if c.Kind == kSingle {
 			v.single = true
 		}
-		if c.Kind >= 0 {
+		if c.Kind >= 0 && c.ID < 1<<53 { // larger IDs do not survive a JSON request body
 			v.recs = append(v.recs, known{c.ID, c.Kind})
 		}
 	}
